@@ -362,6 +362,8 @@ type MsgSpec struct {
 	Conn    string     `json:"conn,omitempty"` // Connection header value
 	Seed    int        `json:"seed"`           // body content seed
 	Spacing int        `json:"spacing,omitempty"` // 0 canonical; 1 no space after colon; 2 trailing spaces in values
+	Conn2   string     `json:"conn2,omitempty"`    // a second Connection field (a proxy appending its own)
+	HexForm int        `json:"hex_form,omitempty"` // chunk sizes: 0 lower-case hex; 1 upper-case; 2 upper-case with leading zeros
 }
 
 var tokenNames = []string{"X-A", "X-Trace-Id", "Accept", "User-Agent", "x-lower", "Cache-Control", "X_Under", "If-None-Match"}
@@ -396,6 +398,14 @@ func genMsg(r *simrt.Rand, response bool, wellFormedOnly bool) MsgSpec {
 		m.Headers = append(m.Headers, [2]string{"Host", r.PickS("example.com", "localhost:8080")})
 	}
 	m.Conn = r.PickS("", "", "close", "keep-alive", "Keep-Alive", "Close")
+	if r.Bool(0.25) {
+		// connection options are a comma separated list, and the field may be repeated (RFC 7230 6.1)
+		m.Conn = r.PickS("keep-alive, close", "close, keep-alive", "keep-alive,close", "keep-alive , Close", "close")
+		if r.Bool(0.5) {
+			m.Conn = r.PickS("keep-alive", "Keep-Alive", "close")
+			m.Conn2 = r.PickS("close", "Close", "keep-alive")
+		}
+	}
 	m.Spacing = r.Pick(0, 0, 0, 1, 2)
 	bodyOK := !response || (m.Status != 204 && m.Status != 304)
 	if !response && (m.Method == "GET" || m.Method == "HEAD" || m.Method == "OPTIONS" || m.Method == "DELETE") && r.Bool(0.7) {
@@ -420,6 +430,7 @@ func genMsg(r *simrt.Rand, response bool, wellFormedOnly bool) MsgSpec {
 			m.Body += c
 		}
 		m.ChunkExt = r.Bool(0.2)
+		m.HexForm = r.Pick(0, 0, 1, 2)
 		if r.Bool(0.3) {
 			for i := 0; i < r.Range(1, 2); i++ {
 				m.Trailers = append(m.Trailers, [2]string{r.PickS("X-Checksum", "X-Trailer-B", "Expires", "x-checksum", "x-length", "eTag"), headerValues[r.Intn(len(headerValues))]})
@@ -463,6 +474,9 @@ func (m MsgSpec) encode(response bool) []byte {
 	if m.Conn != "" {
 		hdr("Connection", m.Conn)
 	}
+	if m.Conn2 != "" {
+		hdr("Connection", m.Conn2)
+	}
 	body := bodyBytes(m.Seed, m.Body)
 	switch m.Framing {
 	case "cl":
@@ -481,10 +495,17 @@ func (m MsgSpec) encode(response bool) []byte {
 		b.WriteString("\r\n")
 		off := 0
 		for _, c := range m.Chunks {
+			size := fmt.Sprintf("%x", c)
+			switch m.HexForm {
+			case 1:
+				size = fmt.Sprintf("%X", c)
+			case 2:
+				size = fmt.Sprintf("%04X", c)
+			}
 			if m.ChunkExt {
-				fmt.Fprintf(&b, "%x;ext=1\r\n", c)
+				fmt.Fprintf(&b, "%s;ext=1\r\n", size)
 			} else {
-				fmt.Fprintf(&b, "%x\r\n", c)
+				fmt.Fprintf(&b, "%s\r\n", size)
 			}
 			b.Write(body[off : off+c])
 			b.WriteString("\r\n")
